@@ -2,7 +2,7 @@ HOOKS = {
     "guard": "cargo feature `oq3_verif` (crates oq3_semantics, oq3_parser)",
     "enable": "the harness crate /verif/harness depends on /repo/crates/* by path with features=[\"oq3_verif\"]; `cargo build --offline` in /verif/harness rebuilds from /repo's working tree",
     "baseline_off_cmd": "cd /repo && cargo test --workspace --no-fail-fast --offline",
-    "source_commits": ["43080a3"],
+    "source_commits": ["43080a3", "4b627d0", "198111a"],
     "add_only": True,
 }
 NOTES = ("One orchestrator: bin/check <Cxx> --tier quick|thorough. Each run: (re)build Lean theorems + axiom audit, "
@@ -22,5 +22,10 @@ CHECKS = {
         "design_ref": "§7 C20", "technique": "Lean 4 proof (case analysis on type tags, omega on widths) + exhaustive differential correspondence over the finite type abstraction",
         "note": COMMON_NOTE + "Order on types as fixed in DESIGN §7 C20.",
     },
+}
+CHECKS["C14"] = {
+    "text": "Proof: for arbitrary Unicode class tables and arbitrary input (List Char), by induction: advance_token returns a strict suffix (every token non-empty), token texts concatenate to the input (lengths sum to the UTF-8 length), every token is a whole number of characters, suffix_start <= len, all lexer debug assertions and the block-comment depth guard hold, tokenize needs no more fuel than the input length; the LexedStr table has strictly increasing starts from 0 to the input length, |kinds| = |starts|, every slice is the token's text, error indices are in range, to_input is total. The model is tied to oq3_lexer / lexed_str.rs by running both on every string of length <= 5 (quick; <= 6 thorough) over the quantifier's 14-character alphabet plus random rich-alphabet strings; the same predicates are evaluated on the real token stream, which is lexed twice (determinism).",
+    "design_ref": "§7 C14", "technique": "Lean 4 proof (suffix lemmas per scanner, induction on input) + bounded-exhaustive differential correspondence",
+    "note": COMMON_NOTE + "unicode-xid/unicode-properties class tables are parameters of the model (all theorems hold for every table; the one ASCII fact needed is checked against the real tables each run). u32 offsets: texts < 2^32 bytes.",
 }
 NOT_YET = {}
